@@ -325,6 +325,7 @@ fn divisible_by_exact_i8() {
     std::mem::forget(ctx);
 }
 
+/* NOT KEPT (never run to completion: equivalence of two 128-bit dividers)
 // Full-width exact divisibility against an independent magnitude oracle (two 128-bit dividers:
 // expensive for the SAT solver).
 #[kani::proof]
@@ -343,6 +344,8 @@ fn divisible_by_exact_i128() {
     std::mem::forget((res, kw, st));
     std::mem::forget(ctx);
 }
+
+*/
 
 // killed by: `Number::Float(u) => Ok(u % (divisor as f64) == 0.0)`
 #[kani::proof]
